@@ -281,9 +281,35 @@ func (clusterView) Gen(r *Rng, i int) string {
 			// the same topology again (no change expected)
 			evs = append(evs, "M "+hx(wrapBulk(text)))
 		case x < 7:
-			// one replica re-parented / one line dropped
+			// one replica re-parented (it now replicates another master of the same text), or one line dropped
 			ls := strings.Split(strings.TrimSuffix(text, "\n"), "\n")
-			if len(ls) > 1 {
+			reparented := false
+			if r.Bool() {
+				var masterIDs []string
+				var slaveIdx []int
+				for k, l := range ls {
+					f := strings.Split(l, " ")
+					if len(f) >= 8 && strings.Contains(f[2], "master") {
+						masterIDs = append(masterIDs, f[0])
+					}
+					if len(f) >= 8 && f[2] == "slave" {
+						slaveIdx = append(slaveIdx, k)
+					}
+				}
+				if len(masterIDs) > 1 && len(slaveIdx) > 0 {
+					k := slaveIdx[r.Intn(len(slaveIdx))]
+					f := strings.Split(ls[k], " ")
+					for _, id := range masterIDs {
+						if id != f[3] {
+							f[3] = id
+							break
+						}
+					}
+					ls[k] = strings.Join(f, " ")
+					reparented = true
+				}
+			}
+			if !reparented && len(ls) > 1 {
 				j := r.Intn(len(ls))
 				ls = append(ls[:j], ls[j+1:]...)
 			}
